@@ -233,6 +233,51 @@ def conforms(impl, spec_c, spec_sem=None, params=None, compiles=True):
     return ("U", "transfer matrix differs from the ordered product of the components (no ancilla bijection matches)")
 
 
+CALIB = [0.0]         # max |evaluator - TLC| over the read results seen by this process
+
+
+def calibrate_reads(event, res, sc, M):
+    """evaluator (ev_reads) vs TLC's exact read result"""
+    from .. import ev_reads as er
+    name, a = event[1], event[3:]
+    ins = tuple(a[0])
+    err = 0.0
+    if name == "simulate":
+        mine = er.sim_table(sc, M, ins)
+        for o, v in res.items():
+            err = max(err, abs(mine[tuple(o)] - ring.to_complex(v[0]) / np.sqrt(v[1])))
+    elif name == "sdist":
+        L, table = res
+        mine = er.sampler_dist(sc, M, ins)
+        for pat, num in (table.items() if isinstance(table, dict) else []):
+            err = max(err, abs(mine.get(tuple(pat), 0.0) - exact_prob(num, L)))
+    elif name == "analyze":
+        L, table = res
+        lossy = any(o[0] == "loss" for o in _flat(sc["ops"]))
+        mine = er.analyzer_table(sc, M, ins, a[1], lossy)
+        if isinstance(table, dict):
+            if set(map(tuple, table)) != set(mine):
+                return 1.0
+            for o, num in table.items():
+                err = max(err, abs(mine[tuple(o)] - exact_prob(num, L)))
+    elif name == "quick":
+        L, table = res
+        mine = er.quick_table(sc, M, ins, a[1], a[2])
+        if isinstance(table, dict):
+            if set(map(tuple, table)) != set(mine):
+                return 1.0
+            for o, num in table.items():
+                err = max(err, abs(mine[tuple(o)] - exact_prob(num, L)))
+    return float(err)
+
+
+def _flat(ops):
+    out = []
+    for o in ops:
+        out += _flat(o[2]) if o[0] == "grp" else [o]
+    return out
+
+
 LAST_ORDER = []      # spec index (users, ancillas) -> implementation position, of the last successful conforms() with a matrix
 
 
@@ -401,7 +446,7 @@ def apply_event(objs, ev, params=NOPARAMS):
         finally:
             plt.close("all")
     elif name == "bar":
-        if len(a[0]) == 0:
+        if tuple(a[0]) == (99,):
             objs[t].barrier()
         else:
             objs[t].barrier(list(a[0]))
@@ -536,6 +581,8 @@ def replay_read(prog, objs, expected_circ, sem_np, res):
         return [(r[0], len(prog) - 1, "object %d: %s" % (t, r[1]))]
     order = list(LAST_ORDER)
     before = {o: snapshot(c) for o, c in objs.items()}
+    if ev[0] == "ok" and sem_np is not None and isinstance(res, (dict, tuple)) and res != ():
+        CALIB[0] = max(CALIB[0], calibrate_reads(ev, res, sc, sem_np))
     for clause, detail in check_read(objs[t], ev, res, sc, order):
         out.append((clause, len(prog) - 1, detail))
     after = {o: snapshot(c) for o, c in objs.items()}
@@ -585,6 +632,7 @@ def dump_worker(st, ctx):
             t = prog[-1][2]
             sm = ring.mat_to_np(semv[t - 1]) if (semv is not None and semv[t - 1] != ()) else ev.sem(circ[t - 1], pv=pval)
             f += replay_read(prog, objs, circ, sm, st.get("res"))
+            res["calib"] = max(res["calib"], CALIB[0])
         res["findings"] = f
     except Drift as d:
         res["drift"] = str(d)
